@@ -352,6 +352,33 @@ static void variableStreamCase(vh::Rng& g, int srcKind, int which) {
     }
 }
 
+// Differentiate of an operand that supplies its own derivative (no approximation): finding F-C23a - realize(Acceleration)
+// calls ensureDerivativeIsRealized() with an invalid variable index and crashes.  Run in a child process.
+#include <unistd.h>
+#include <sys/wait.h>
+static void diffExactCase() {
+    std::fflush(stdout);
+    pid_t pid = fork(); int status = 0; bool crashed = false, bad = false;
+    if (pid == 0) {
+        try {
+            MultibodySystem system; SimbodyMatterSubsystem matter(system); GeneralForceSubsystem forces(system);
+            Body::Rigid body(MassProperties(1.0, Vec3(0), Inertia(1)));
+            MobilizedBody::Pin pend(matter.updGround(), Transform(Vec3(0)), body, Transform(Vec3(0, 1, 0)));
+            Measure::Sinusoid sn(forces, 2.0, 5.0, 0.3);
+            Measure::Differentiate dif(forces, sn);
+            State state = system.realizeTopology(); state.setTime(0.25);
+            system.realize(state, Stage::Acceleration);
+            double v = dif.getValue(state), truth = 2.0 * 5.0 * std::cos(5.0 * 0.25 + 0.3);
+            _exit(std::fabs(v - truth) < 1e-12 ? 0 : 3);
+        } catch (...) { _exit(4); }
+    } else if (pid > 0) { waitpid(pid, &status, 0); crashed = WIFSIGNALED(status); bad = !crashed && WEXITSTATUS(status) != 0; }
+    vh::I("arith").d(1).d(0).d(0).d(0).d(1).d(0).emit();
+    vh::O("arith").d(0).d(0).d(-0.0).d(-0.0).d(0).d(0).d(0).emit();
+    vh::D(std::string("diffexact.") + (crashed ? "crash" : bad ? "wrong" : "ok"));
+    vh::P("differentiate_exact_operand", "measure.differentiate.exact_operand.crash", (crashed || bad) ? 1 : 0, 0);
+}
+
+
 // Differentiate of an operand that depends on no stage later than Model (a Measure::Variable, or arithmetic of Variables and
 // Constants): its auto-update variable is allocated with invalidates = operand.getDependsOnStage(0) = Model
 // (MeasureImplementation.h:1382), so Integrator::initialize() - which swaps in the auto-update values - drops the state below
